@@ -423,7 +423,7 @@ func c03download(t *testing.T, rep *lib.Report) {
 					ms.NoCRC = true
 					dest = ms
 				} else {
-					afs = afero.NewMemMapFs()
+					afs = newSafeMemMapFs()
 					dest = localfs.New(afs, localfs.WithRetry(false))
 				}
 				rp := map[string]interface{}{"corruption": c.String(), "blob": c.Blob, "dest": destKind}
